@@ -111,6 +111,80 @@ def run_parallel(tasks, par=None):
         return [f.result() for f in futs]
 
 
+def run_scripts_resilient(cmd_of, scripts, out_path, tag, chunk=3000, par=None, timeout=900):
+    """Replay `scripts` (list of lists of call dicts) through a driver that may die (sanitizer abort, signal).
+    cmd_of(script_file) -> argv. The driver must emit {"op":"reset"} per script (env VH_MARK=1).
+    A death is turned into one event {"op":"trap", ...} for the script in flight and the replay resumes
+    with the next script. Returns dict(traps=[...], runs=n)."""
+    from concurrent.futures import ThreadPoolExecutor
+    d = workdir("resilient", tag)
+    shutil.rmtree(d, ignore_errors=True)
+    os.makedirs(d)
+    chunks = [scripts[i:i + chunk] for i in range(0, len(scripts), chunk)]
+
+    def one(ci):
+        todo = chunks[ci]
+        outp = os.path.join(d, "out_%d.ndjson" % ci)
+        traps = []
+        runs = 0
+        with open(outp, "wb") as outf:
+            while todo:
+                sp = os.path.join(d, "script_%d_%d.ndjson" % (ci, runs))
+                write_scripts(todo, sp)
+                part = os.path.join(d, "part_%d_%d.ndjson" % (ci, runs))
+                rc, err = run(cmd_of(sp), part, timeout=timeout, env={"VH_MARK": "1"}, ok_codes=None)
+                runs += 1
+                nreset = 0
+                good_upto = 0   # byte offset of the start of the last (possibly incomplete) script
+                data = open(part, "rb").read()
+                lines = data.split(b"\n")
+                keep = []
+                cur = []
+                for ln in lines:
+                    if not ln:
+                        continue
+                    if ln.startswith(b'{"op":"reset"}'):
+                        nreset += 1
+                        keep += cur
+                        cur = [ln]
+                    else:
+                        cur.append(ln)
+                if rc == 0:
+                    keep += cur
+                    outf.write(b"\n".join(keep) + (b"\n" if keep else b""))
+                    break
+                # died inside script number nreset (1-based); events of that script are kept too (they were judged valid calls)
+                keep += [l for l in cur if _is_json(l)]
+                outf.write(b"\n".join(keep) + (b"\n" if keep else b""))
+                if nreset == 0:
+                    raise ModelFailure("driver died before the first script: rc=%s %s" % (rc, err[-800:]))
+                crashed = todo[nreset - 1]
+                rep = [l for l in err.splitlines() if "ERROR" in l or "runtime error" in l or "SUMMARY" in l]
+                trap = {"op": "trap", "rc": rc, "script": crashed, "events_in_script": max(0, len(cur) - 1),
+                        "report": (rep[0] if rep else err[-300:])[:400], "inst": tag}
+                outf.write(json.dumps(trap).encode() + b"\n")
+                traps.append(trap)
+                todo = todo[nreset:]
+                if runs > 200:
+                    raise ModelFailure("more than 200 driver deaths in one chunk (%s)" % tag)
+        return outp, traps, runs
+    with ThreadPoolExecutor(max_workers=par or NCPU) as ex:
+        res = list(ex.map(one, range(len(chunks))))
+    with open(out_path, "wb") as f:
+        for outp, _, _ in res:
+            f.write(open(outp, "rb").read())
+    shutil.rmtree(d, ignore_errors=True)
+    return {"traps": [t for _, ts, _ in res for t in ts], "runs": sum(r for _, _, r in res)}
+
+
+def _is_json(b):
+    try:
+        json.loads(b)
+        return True
+    except Exception:
+        return False
+
+
 # ------------------------------------------------------------------------------------------
 # TLC
 # ------------------------------------------------------------------------------------------
@@ -228,13 +302,15 @@ def tlc_tv(tracespec, cfg, trace_path, tag, heap="8g", timeout=3600, extra_env=N
     if states != n_events + 1:
         raise ModelFailure("trace not consumed: %s states for %d events (%s)" % (states, n_events, trace_path))
     if devs:
-        want = {d["line"] for d in devs}
+        byline = {}
+        for d in devs:
+            byline.setdefault(d["line"], []).append(d)
         with open(trace_path, "r") as f:
             for i, line in enumerate(f, 1):
-                if i in want:
-                    for d in devs:
-                        if d["line"] == i:
-                            d["ev"] = json.loads(line)
+                if i in byline:
+                    ev = json.loads(line)
+                    for d in byline[i]:
+                        d["ev"] = ev
     log("[tlc-tv] %s %s: %d events, %d deviations, %.1fs" % (tracespec, tag, n_events, len(devs), time.time() - t0))
     return {"events": n_events, "deviations": devs, "wall": time.time() - t0}
 
